@@ -150,6 +150,23 @@ Theorem inline_accepts_global_options :
 Proof. exact ProofsValues.inline_accepts_global_options. Qed.
 Print Assumptions inline_accepts_global_options.
 
+(* pyproject.toml [[tool.mypy.overrides]] vs the same tables written as [mypy-m1,m2] sections: for every list of
+   tables in which no module is listed twice, both readers produce the same per_module_options (the flat list
+   in file order, every module with its own copy) *)
+Theorem toml_ini_agree : forall tables,
+    NoDup (List.concat (map fst tables)) ->
+    pmo_of_toml tables = Some (pmo_of_ini tables).
+Proof. exact ProofsValues.toml_ini_agree. Qed.
+Print Assumptions toml_ini_agree.
+
+(* a later table for one module of an array does not reach the other modules; conflicting values raise *)
+Theorem overrides_own_copy :
+  pmo_of_toml [([["a"]; ["b"]], [("x", VNum 1)]); ([["a"]], [("z", VNum 1)])]
+  = Some [(["a"], with_code_defaults [("x", VNum 1); ("z", VNum 1)]); (["b"], with_code_defaults [("x", VNum 1)])]
+  /\ pmo_of_toml [([["a"]; ["b"]], [("x", VNum 1)]); ([["a"]], [("x", VNum 2)])] = None.
+Proof. exact ProofsValues.overrides_own_copy. Qed.
+Print Assumptions overrides_own_copy.
+
 (* non-vacuity *)
 Example hypotheses_satisfiable : NoDup (map fst ex_pmo) /\ wf_names ex_pmo.
 Proof. exact ex_pmo_ok. Qed.
